@@ -279,7 +279,9 @@ def run(tier):
                  (len(ggroups), len(fgroups) + len(ggroups), reps, len(mcreal), sum(p for _, _, p in mcreal)),
             controls=controls, gated_runs=len(gated), free_runs=len(free), race_reports=len(races),
             steps_replayed=sum(len(o["log"]) for o in gated), schedule_kinds=sorted({s["kind"] for s in scheds}),
-            workload_kinds=sorted({w["kind"] for g in allg for w in g["workers"]}), rejected=nbad, known_findings=verdicts.known),
+            workload_kinds=sorted({w["kind"] for g in allg for w in g["workers"]}), rejected=nbad, known_findings=verdicts.known,
+            samples=[dict(group=r["id"], workers=[w["kind"] + (":" + w["type"] if w["type"] else "") for w in gall[r["id"]]["workers"]],
+                          schedule_kind=r["kind"], schedule_prefix=r["schedule"][:40], steps=len(r["log"])) for r in runs[:400:97]]),
             time.time() - t0, len(verdicts.violations),
             assumptions=["shared state is reached only through the instrumented sites (shared tables, catalog, struct types); anything else "
                          "shared between goroutines is seen only by the race detector and the output comparison",
